@@ -53,6 +53,12 @@ def rerun_twin(ch, ctx, did, steps, mode="explicit", ghost=False, twin=False, re
     return env.summary()
 
 
+def probe(ch, ctx, did, **kw):
+    from vt.harness.common import history_body
+
+    return history_body("C17", lambda: [], ch, ctx, did, **kw)
+
+
 def obligations(tier):
     obs = []
     ante = ["c17_requests", "c17_reexecuted", "c17_twin_compared"]
@@ -77,6 +83,10 @@ def obligations(tier):
     for mode in ("default", "explicit"):
         o = ob("C17", "e2c.%s.abend.D11" % mode, "vt.harness.C17:rerun_twin", {"did": "D11", "steps": 4, "mode": mode, "statuses": ["succeeded", "failed", "timeout", "abandoned"], "rerun_order": False}, timeout=900)
         o["antecedents"] = ante
+        obs.append(o)
+    for did, steps in [("D01", 3), ("D04", 4), ("D11", 4)]:
+        o = ob("C17", "e2c.probe." + did, "vt.harness.C17:probe", {"did": did, "steps": steps, "control": "either", "rerun_probe": True}, timeout=900)
+        o["antecedents"] = ["rerun_probes"]
         obs.append(o)
     o = ob("C17", "e2c.ghost.D04", "vt.harness.C17:rerun_twin", {"did": "D04", "steps": 4, "mode": "explicit", "ghost": True}, timeout=900)
     o["fixed"] = {"rr:ghost": True}
